@@ -61,16 +61,17 @@ type c17Entry struct {
 }
 
 type c17Hist struct {
-	a      *c17API
-	r      *kit.Result
-	rng    *kit.Rand
-	id     string
-	spec   c17Spec
-	rings  []*c17Ring
-	ledger []*c17Entry
-	kctx   []byte
-	steps  []string
-	bad    bool
+	a             *c17API
+	r             *kit.Result
+	rng           *kit.Rand
+	id            string
+	spec          c17Spec
+	rings         []*c17Ring
+	restoreNoName bool // the next restore onto the backup's own name passes no name
+	ledger        []*c17Entry
+	kctx          []byte
+	steps         []string
+	bad           bool
 
 	backups     []c17Backup
 	forceLatest bool // scenarios: producers always use the latest version
@@ -1065,6 +1066,7 @@ func (h *c17Hist) doTrim(g *c17Ring, v int) bool {
 type c17Backup struct {
 	blob string
 	m    *c17Model
+	name string // the key name recorded in the backup
 }
 
 func (h *c17Hist) doBackup(g *c17Ring) bool {
@@ -1080,23 +1082,28 @@ func (h *c17Hist) doBackup(g *c17Ring) bool {
 	case g.m.SoftDeleted:
 		h.violate(g, "C17-deleted-key-used", "a soft-deleted key was backed up")
 	default:
-		h.backups = append(h.backups, c17Backup{blob, g.m.clone()})
+		h.backups = append(h.backups, c17Backup{blob, g.m.clone(), g.name})
 		h.r.Count("backups", 1)
 	}
 	return false
 }
 
 func (h *c17Hist) doRestore(target *c17Ring, b c17Backup, force bool) bool {
-	resp := h.a.write("restore/"+target.name, map[string]any{"backup": b.blob, "force": force})
-	h.log("restore -> %s force=%v backup(latest=%d min_dec=%d min_avail=%d) refused=%v %s", target.name, force, b.m.Latest, b.m.MinDec, b.m.MinAvail, resp.Refused, resp.Err)
+	path := "restore/" + target.name
+	if h.restoreNoName && target.name == b.name {
+		path = "restore" // the name is taken from the backup
+	}
+	resp := h.a.write(path, map[string]any{"backup": b.blob, "force": force})
+	h.log("%s -> %s force=%v backup(latest=%d min_dec=%d min_avail=%d) refused=%v %s", target.name, force, b.m.Latest, b.m.MinDec, b.m.MinAvail, resp.Refused, resp.Err)
 	switch {
 	case h.byFault(resp):
 		return true
 	case !force && target.exists:
 		if !resp.Refused {
-			h.violate(target, "C17-restore-overwrote", "restore without force replaced an existing key")
+			h.violate(target, "C17-unforced-restore-replaced-existing-key", fmt.Sprintf("%s without force replaced the existing key %s", path, target.name))
 		} else {
 			h.r.Count("restore_noforce_refused", 1)
+			h.r.Count(fmt.Sprintf("restore_noforce_refused:name_given=%v", path != "restore"), 1)
 		}
 	case resp.Refused:
 		h.violate(target, "C17-restore-failed", "restore failed: "+resp.Err)
@@ -1394,7 +1401,31 @@ func c17RunAPIHistory(ctx context.Context, r *kit.Result, rng *kit.Rand, id stri
 			if rng.Chance(1, 3) {
 				target = sib
 			}
-			force := rng.Chance(3, 4)
+			// matrix: {name in the path, taken from the backup} x {force, no force} x
+			// {target absent, cached, in storage only after a backend restart or an
+			// invalidation (or caching disabled)} x {name of the backup, other name}
+			h.restoreNoName = rng.Chance(1, 2)
+			if h.restoreNoName {
+				for _, rg := range h.rings {
+					if rg.name == b.name {
+						target = rg
+					}
+				}
+			}
+			force := rng.Chance(3, 5)
+			switch rng.Intn(4) {
+			case 0:
+				if err := a.restart(); err != nil {
+					r.Inconc("%s: restart: %v", id, err)
+					return
+				}
+				h.log("backend restart before the restore")
+				r.Count("restore_after_restart", 1)
+			case 1:
+				a.b.invalidate(ctx, "policy/"+target.name)
+				h.log("invalidate policy/%s before the restore", target.name)
+				r.Count("restore_after_invalidate", 1)
+			}
 			sigb.WriteString("S" + target.name)
 			h.faulted("restore", h.pickFault(), target, func() bool { return h.doRestore(target, b, force) })
 		case op < 57:
